@@ -5,13 +5,12 @@
     types/attribute.go       attribute.initialize                → `mkAttr`          (kind/value checks, implicit `undef` of an
                                                                                      Optional type, given_or_derived made Optional)
                              Default / HasValue / Value           → `Attr.isDefault`, `Attr.hasValue`, `Attr.implicit`
-    types/annotatedmember.go assertOverride / assertCanBeOverridden → `assertOverride` (no `override => true` in the universe:
-                                                                                     a repeated name is always rejected)
+    types/annotatedmember.go assertOverride / assertCanBeOverridden → `assertOverride` (+ `asg`: IsAssignable on the alphabet)
     types/objecttype.go      InitFromHash  (attributes loop)      → `defineAttrs`
                                            (equality loop)        → `checkEquality`
                                            (serialization loop)   → `checkSerialization`
                                            (whole)                → `define`
-                             EachAttribute(true, …)               → `eachAttribute`
+                             collectAttributes(true, …)           → `eachAttribute` (an override replaces in place)
                              GetAttribute / Member / members(true).Get / collectAttributes(true).Get → `findAttr`
                              EqualityAttributes                   → `equalityAttributes` (+ `equalityDeclared`, after the fix
                                                                     "an explicitly empty equality list was treated as … not declared")
@@ -41,7 +40,7 @@
 
   Go runtime faults / raised issues are explicit: every function that can raise in Go answers `Except Code _`.
   Attribute types are a small alphabet with a decidable instance test (`inst`); nothing in this file depends on which.
-  Not modelled (outside the universe the driver accepts): `override => true`, functions, type parameters, annotations,
+  Not modelled (outside the universe the driver accepts): `final => true`, functions, type parameters, annotations,
   constants given through `constants => {}`, a `serialization` list or a hash literal with a repeated name.
   Core-only file (linked into the driver).
 -/
@@ -66,6 +65,20 @@ def inst : Ty → Val → Bool
   | .opt t, v => v == .undef || inst t v
   | _, _ => false
 
+def stripOpt : Ty → Ty
+  | .opt u => stripOpt u
+  | u => u
+
+/-- IsAssignable on the alphabet (after the fix "Optional[T] … accepts T and Undef only"): `Optional[T]` accepts `U`,
+    `Optional[U]`, `Optional[Optional[U]]` … iff `T` accepts `U`.  Used by assertCanBeOverridden. -/
+def asg : Ty → Ty → Bool
+  | .any, _ => true
+  | .opt t, u => asg t (stripOpt u)
+  | .int, .int => true
+  | .str, .str => true
+  | .bool, .bool => true
+  | _, _ => false
+
 inductive Kind where
   | normal | constant | derived | givenOrDerived | reference
   deriving DecidableEq, Repr, Inhabited
@@ -73,6 +86,7 @@ inductive Kind where
 /-- issue codes (printed without the `PCORE_` prefix) and the Go runtime fault -/
 inductive Code where
   | typeMismatch | constantRequiresValue | illegalKindValueCombination | overrideIsMissing | overrideOfFinal
+  | overriddenNotFound | overrideTypeMismatch
   | equalityAttributeNotFound | equalityOnConstant | equalityRedefined
   | serializationAttributeNotFound | serializationBadKind | serializationRequiredAfterOptional
   | illegalArguments | missingRequiredAttribute | attributeHasNoValue
@@ -85,6 +99,8 @@ def Code.toString : Code → String
   | .illegalKindValueCombination => "reported ILLEGAL_KIND_VALUE_COMBINATION"
   | .overrideIsMissing => "reported OVERRIDE_IS_MISSING"
   | .overrideOfFinal => "reported OVERRIDE_OF_FINAL"
+  | .overriddenNotFound => "reported OVERRIDDEN_NOT_FOUND"
+  | .overrideTypeMismatch => "reported OVERRIDE_TYPE_MISMATCH"
   | .equalityAttributeNotFound => "reported EQUALITY_ATTRIBUTE_NOT_FOUND"
   | .equalityOnConstant => "reported EQUALITY_ON_CONSTANT"
   | .equalityRedefined => "reported EQUALITY_REDEFINED"
@@ -104,6 +120,7 @@ structure AttrDecl where
   ty : Ty
   kind : Kind
   dflt : Option Val
+  override : Bool := false
   deriving DecidableEq, Repr, Inhabited
 
 /-- an attribute after `attribute.initialize`; `value = none` is Go's `a.value == nil` (not to be confused with undef) -/
@@ -112,6 +129,7 @@ structure Attr where
   ty : Ty
   kind : Kind
   value : Option Val
+  override : Bool := false
   deriving DecidableEq, Repr, Inhabited
 
 def Attr.hasValue (a : Attr) : Bool := a.value.isSome
@@ -167,7 +185,7 @@ def mkAttr (d : AttrDecl) : Except Code Attr :=
   match d.dflt with
   | some v =>
     if d.kind == .derived || d.kind == .givenOrDerived then .error .illegalKindValueCombination
-    else if inst d.ty v then .ok { name := d.name, ty := d.ty, kind := d.kind, value := some v }
+    else if inst d.ty v then .ok { name := d.name, ty := d.ty, kind := d.kind, value := some v, override := d.override }
     else .error .typeMismatch
   | none =>
     if d.kind == .constant then .error .constantRequiresValue
@@ -178,7 +196,7 @@ def mkAttr (d : AttrDecl) : Except Code Attr :=
       let value := match ty with
         | .opt _ => some Val.undef
         | _ => none
-      .ok { name := d.name, ty := ty, kind := d.kind, value := value }
+      .ok { name := d.name, ty := ty, kind := d.kind, value := value, override := d.override }
 
 /-- own attributes first, then the parent's (GetAttribute, Member, members(true).Get) -/
 def findAttr : OType → String → Option Attr
@@ -188,10 +206,14 @@ def findAttr : OType → String → Option Attr
     | some a => some a
     | none => findAttr p n
 
-/-- EachAttribute(true, …): the parent's attributes first -/
+/-- collectAttributes(true, …) (a StringHash filled parent first: `PutAll` replaces the value of an existing key in place):
+    the parent's attributes first, an overridden one replaced in place by the overriding one (after the fix "an overriding
+    attribute was laid out in addition to the attribute it overrides") -/
 def eachAttribute : OType → List Attr
   | [] => []
-  | l :: p => eachAttribute p ++ l.attrs
+  | l :: p =>
+    (eachAttribute p).map (fun a => (l.attrs.find? (fun b => b.name == a.name)).getD a) ++
+      l.attrs.filter (fun b => !(eachAttribute p).any (fun a => a.name == b.name))
 
 /-- the declared equality lists, own first -/
 def equalityAttributes : OType → List String
@@ -202,13 +224,15 @@ def equalityDeclared : OType → Bool
   | [] => false
   | l :: p => l.equality.isSome || equalityDeclared p
 
-/-- a member of the same name exists in the parent: never declared `override` here, so always an error -/
+/-- annotatedmember.go assertOverride / assertCanBeOverridden (a constant is final) -/
 def assertOverride (parent : OType) (a : Attr) : Except Code Unit :=
   match findAttr parent a.name with
-  | none => .ok ()
+  | none => if a.override then .error .overriddenNotFound else .ok ()
   | some pa =>
-    if pa.kind == .constant && a.kind != .constant then .error .overrideOfFinal   -- a constant is final
-    else .error .overrideIsMissing
+    if pa.kind == .constant && a.kind != .constant then .error .overrideOfFinal
+    else if !a.override then .error .overrideIsMissing
+    else if !asg pa.ty a.ty then .error .overrideTypeMismatch
+    else .ok ()
 
 def defineAttrs (parent : OType) : List AttrDecl → Except Code (List Attr)
   | [] => .ok []
@@ -415,8 +439,8 @@ def makeValueHash : List Attr → List Val → List (String × Val)
 
 def initHash (o : Obj) : List (String × Val) := makeValueHash (attrInfo o.typ).attrs o.values
 
-/-- attribute.Equals: kind, name, type (override/final are determined by the kind here); never the value -/
-def attrEq (a b : Attr) : Bool := a.kind == b.kind && a.name == b.name && a.ty == b.ty
+/-- attribute.Equals: kind, override, name, type (final is determined by the kind here); never the value -/
+def attrEq (a b : Attr) : Bool := a.kind == b.kind && a.override == b.override && a.name == b.name && a.ty == b.ty
 
 /-- objectType.Equals.  `t == o`: the pointer test; names (`id`) first. -/
 def tyEqDeep : OType → OType → Bool
